@@ -1,5 +1,6 @@
 import GeoVerif.Corr.Proto
 import GeoVerif.Model.MathF
+import GeoVerif.Model.Accum
 /-! Correspondence relations for C16 (angle arithmetic, error-free sum) -/
 namespace GeoVerif.Corr.C16
 open GeoVerif GeoVerif.Proto GeoVerif.MathF
@@ -99,6 +100,21 @@ def handle (op : String) (args res : List String) : Option Verdict :=
       match args.foldl step (some (Dy.zero, Dy.zero)) with
       | none => .bad "parse"
       | some (v, m) =>
+        -- bit-exact model of (_s, _t) for histories without `*=` by a number (those use fma, which is not modelled)
+        let mstep (st : Option Accum.Acc) (tok : String) : Option Accum.Acc :=
+          st.bind fun a =>
+            if tok.startsWith "a:" then (parseF (String.ofList (tok.toList.drop 2))).map fun y => Accum.add a y
+            else if tok.startsWith "s:" then (parseF (String.ofList (tok.toList.drop 2))).map fun y => Accum.set y
+            else if tok.startsWith "d:" then (parseF (String.ofList (tok.toList.drop 2))).map fun y => Accum.sub a y
+            else if tok == "c" || tok.startsWith "q:" || tok.startsWith "r:" then some a
+            else if tok == "n" then some (Accum.negate a)
+            else none
+        let modelBad : Option String :=
+          match args.foldl mstep (some (Accum.set 0)) with
+          | some a => if F64.same a.s s && F64.same a.t t then none
+                      else some s!"accumulator model (_s,_t)=({showF a.s},{showF a.t}) impl=({showF s},{showF t})"
+          | none => none
+        if let some msg := modelBad then .bad msg else
         if !(s.isFinite && t.isFinite) then .skip "overflow" else
         let err := Dy.abs (Dy.sub (Dy.add s.toDy t.toDy) v)
         -- "roughly twice working precision": 2^-98 relative to the accumulated magnitude
